@@ -108,24 +108,12 @@ Fixpoint dec_all (fuel : nat) (n : nat) (ts : list N) : option (list decl) :=
   end.
 Definition dec_tokens (ts : list N) : option (list decl) := dec_all (S (length ts)) (S (length ts)) ts.
 
-Definition keys_eqb (a b : list N) : bool := list_eqb N.eqb a b.
+Definition mk_lookup (files : list (list N * N)) (dirs : list (list N)) : path -> option node :=
+  fs_get (fs_of (map (fun e => (dec_path (fst e), snd e)) files) (map dec_path dirs)).
 
-Definition mk_fs (files : list (list N * N)) (dirs : list (list N)) (p : path) : option node :=
-  let k := enc_path p in
-  match k with
-  | [] => Some Dir
-  | _ => if existsb (keys_eqb k) dirs then Some Dir
-         else match find (fun e => keys_eqb k (fst e)) files with Some e => Some (File (snd e)) | None => None end
-  end.
-Definition mk_lookup files dirs : path -> option node := fs_get (mk_fs files dirs).
-
-Definition mk_ast_t (asts : list (N * option (list decl))) (id : N) : option (list decl) :=
-  match find (fun e => N.eqb id (fst e)) asts with Some e => snd e | None => Some [] end.
-Definition mk_facts (fx : list (N * (bool * bool * bool))) (id : N) : facts :=
-  match find (fun e => N.eqb id (fst e)) fx with
-  | Some (_, (a, b, c)) => mkFacts a b c
-  | None => mkFacts false false false
-  end.
+Definition mk_ast_t (asts : list (N * option (list decl))) : N -> option (list decl) := ast_of asts.
+Definition mk_facts (fx : list (N * (bool * bool * bool))) : N -> facts :=
+  facts_of (map (fun e => (fst e, match snd e with (a, b, c) => mkFacts a b c end)) fx).
 
 Definition enc_res (r : res (list path)) : N * list (list N) :=
   match r with
